@@ -126,3 +126,61 @@ Definition valid_routeb (st : pstate) (r : list nat) : bool :=
   | Ok (true, _, _) => true
   | _ => false
   end.
+
+(* ---------- correspondence: the hypotheses of the C08 theorems on the instances of the runtime check ----------
+   The harness builds every instance as  nodes, accepted arcs, then add_route on every candidate.  The model
+   does the same (prun); the case carries what the implementation stored (routes, costs), the arc grid the
+   harness used and the optimum of the harness's independent solver.  best_cost is an executable search
+   over the model's pool (smallest uncovered customer first); it is a cross-check, no theorem is about it. *)
+Fixpoint best_cost (fuel : nat) (uncov : list nat) (pool : list (list nat * Z)) : option Z :=
+  match uncov with
+  | [] => Some 0
+  | k :: _ =>
+      match fuel with
+      | O => None
+      | S f =>
+          fold_left
+            (fun acc rc =>
+               let r := fst rc in
+               if memb k r && forallb (fun c => memb c uncov) (interior r) then
+                 match best_cost f (filter (fun c => negb (memb c (interior r))) uncov) pool with
+                 | Some v => Some (match acc with Some a => Z.min a (snd rc + v) | None => snd rc + v end)
+                 | None => acc
+                 end
+               else acc)
+            pool None
+      end
+  end.
+
+Definition model_state (cap init : Z) (build : list pop) : pstate :=
+  prun (build ++ add_all_candidates (num_nodes (prun build (pempty cap init)))) (pempty cap init).
+
+Fixpoint nodupZb (l : list Z) : bool :=
+  match l with [] => true | x :: l' => negb (existsb (Z.eqb x) l') && nodupZb l' end.
+
+(* capacity, initial loading, build history, implementation's routes and costs, arc grid, reference optimum *)
+Definition c08case := (Z * Z * list pop * list (list nat) * list Z * list Z * option Z)%type.
+
+(* tags: 1 pool (routes with costs, as a set) differs; 2 a depot self-arc exists; 3 capacity could bind
+   (a non-zero demand, or initial loading outside [0, cap]); 4 depot window does not open at 0;
+   5 a customer-to-customer travel time is not positive; 6 the grid is not duplicate-free / lacks 0 or a
+   service time of a valid route; 7 optimum of the model pool differs from the reference optimum *)
+Definition check_c08case (c : c08case) : list nat :=
+  match c with
+  | (cap, init, build, iroutes, icosts, grid, iopt) =>
+      let st := model_state cap init build in
+      let g := pg st in
+      let mpool := combine (proutes st) (pcosts st) in
+      let ipool := combine iroutes icosts in
+      chk 1 (Nat.eqb (length iroutes) (length icosts) && Nat.eqb (length ipool) (length mpool) &&
+             forallb (fun rc => existsb (fun mc => list_eqb Nat.eqb (fst rc) (fst mc) && (snd rc =? snd mc)) mpool)
+                     ipool) ++
+      chk 2 (negb (dict_mem (O, O) (arcs g))) ++
+      chk 3 (forallb (fun n => ndemand n =? 0) (nodes g) && (0 <=? init) && (init <=? cap)) ++
+      chk 4 (nlo (node_at g O) =? 0) ++
+      chk 5 (forallb (fun kv : (nat * nat) * arc =>
+                        Nat.eqb (fst (fst kv)) 0 || Nat.eqb (snd (fst kv)) 0 || (0 <? att (snd kv))) (arcs g)) ++
+      chk 6 (nodupZb grid && existsb (Z.eqb 0) grid &&
+             forallb (fun r => forallb (fun t => existsb (Z.eqb t) grid) (arrivals g 0 O (tl r))) (proutes st)) ++
+      chk 7 (option_eqb Z.eqb (best_cost (num_nodes st) (seq 1 (num_nodes st - 1)) mpool) iopt)
+  end.
